@@ -13,6 +13,7 @@ partial def edgeKToJson : EdgeK → Json
   | .function f kw silent => Json.mkObj [("k", .str "fn"), ("f", .str f), ("kw", .arr (kw.map Json.str).toArray),
       ("silent", .arr (silent.map fun (n : Nat) => toJson n).toArray)]
   | .constant v => Json.mkObj [("k", .str "const"), ("v", valToJson v)]
+  | .cache s => Json.mkObj [("k", .str "cache"), ("store", toJson s)]
   | .impure inner => Json.mkObj [("k", .str "impure"), ("inner", edgeKToJson inner)]
   | .byValue inner => Json.mkObj [("k", .str "byvalue"), ("inner", edgeKToJson inner)]
   | _ => Json.mkObj [("k", .str "other")]
@@ -30,13 +31,19 @@ def factoryErrToJson : FactoryErr → Json
   | .optional => Json.mkObj [("err", .str "GraphError"), ("rule", .str "detect_optionals")]
   | .bag e => bagErrToJson e
 
-/-- `{"op":"factory","layers":[layer description, ...]}` -/
+/-- `{"op":"factory","layers":[layer description, ...],"caches":[{"names": name set, "prev": [output names]}, ...]}` -/
 def opFactory (j : Json) : P Json := do
-  let ls ← (← jArr (← jField j "layers")).mapM rawLayerOfJson
+  let ls ← (← jArr (jFieldD j "layers" (.arr #[]))).mapM rawLayerOfJson
   let outs := ls.map fun r =>
     match r.factory with
     | .ok b => Json.mkObj [("ok", bagToJsonSem b), ("wf", .bool b.wfB), ("acyclic", .bool (acyclicB b.edges))]
     | .error e => factoryErrToJson e
-  pure (Json.mkObj [("outs", .arr outs.toArray)])
+  let cs ← (← jArr (jFieldD j "caches" (.arr #[]))).mapM fun c => do
+    let names ← nameSetOfJson (← jField c "names")
+    let prev ← jStrs (← jField c "prev")
+    pure (match cacheBag 0 names prev with
+      | .ok b => Json.mkObj [("ok", bagToJsonSem b), ("wf", .bool b.wfB)]
+      | .error e => bagErrToJson e)
+  pure (Json.mkObj [("outs", .arr outs.toArray), ("caches", .arr cs.toArray)])
 
 end CM
